@@ -50,6 +50,15 @@ type emitted struct {
 	Path     []step `json:"path"`
 }
 
+// concStr: the concrete text of the specification's abstract string literals: "zz" stands for a
+// string with a multi-byte character (spelled literally in two of the three renderings)
+func concStr(s string) string {
+	if s == "zz" {
+		return "z\u00e9"
+	}
+	return s
+}
+
 // render writes a token sequence as text; variant selects among equivalent spellings.
 func render(ts []tok, variant int) string {
 	var b strings.Builder
@@ -58,6 +67,7 @@ func render(ts []tok, variant int) string {
 		case "ident", "int":
 			b.WriteString(t.T)
 		case "str":
+			t.T = concStr(t.T)
 			switch variant % 3 {
 			case 0:
 				b.WriteString(strconv.Quote(t.T))
@@ -65,10 +75,13 @@ func render(ts []tok, variant int) string {
 				b.WriteString("'" + t.T + "'")
 			default: // hex / octal escapes of every character
 				b.WriteByte('"')
-				for i, c := range []byte(t.T) {
-					if i%2 == 0 {
+				for i, c := range t.T {
+					switch {
+					case c > 0x7f: // the language's \x and octal escapes denote code points below 0x100, not bytes
+						fmt.Fprintf(&b, "\\u%04x", c)
+					case i%2 == 0:
 						fmt.Fprintf(&b, "\\x%02x", c)
-					} else {
+					default:
 						fmt.Fprintf(&b, "\\%03o", c)
 					}
 				}
@@ -98,7 +111,19 @@ func sampleTest(depth int) *tm.Test {
 		sub := sampleTest(depth - 1)
 		n.Nested = sampleTest(depth - 1)
 		t.Repeats = []*tm.Test{sub, sampleTest(0)}
-		t.Strkeymap = map[string]*tm.Test_Nested{"a": {Intfield: 5, Bytesfield: []byte("bytes-in-map"), Nested: sampleTest(0)}}
+		// long enough lists that an index literal read in another base (017 = 15, 0x10 = 16) addresses
+		// another, distinguishable element
+		for k := 2; k < 18; k++ {
+			e := sampleTest(0)
+			e.Nested.Intfield = int32(100 + k)
+			e.Nested.Stringfield = fmt.Sprintf("element %d", k)
+			t.Repeats = append(t.Repeats, e)
+		}
+		for k := 2; k < 18; k++ {
+			t.Int32Repeats = append(t.Int32Repeats, int32(1000+k))
+		}
+		t.Strkeymap = map[string]*tm.Test_Nested{"a": {Intfield: 5, Bytesfield: []byte("bytes-in-map"), Nested: sampleTest(0)},
+			"z\u00e9": {Intfield: 6, Bytesfield: []byte("bytes under the non-ASCII key"), Nested: sampleTest(0)}}
 		t.Boolkeymap = map[bool]*tm.Test{true: sub}
 		t.Int32Keymap = map[int32]*tm.Test{0: sub, 1: sampleTest(0), -1: sampleTest(0), 15: sub, 16: sub}
 		t.Int64Keymap = map[int64]*tm.Test{0: sub, 1: sub, -1: sub, 15: sub, 16: sub, 2147483648: sub, -2147483649: sub, 4294967296: sub}
@@ -116,6 +141,9 @@ func sampleGolden(full bool) *epb.VMGoldenMeasurement {
 		g.SevSnp = &epb.VMSevSnp{Svn: 3, Policy: 7, FamilyId: bytes.Repeat([]byte{1}, 16), ImageId: bytes.Repeat([]byte{2}, 16), SvsmMeasurement: rp.Meas("svsm"),
 			Measurements: map[uint32][]byte{0: rp.Meas("m0"), 1: rp.Meas("m1"), 15: rp.Meas("m15"), 16: rp.Meas("m16"), 2147483648: rp.Meas("mbig")}}
 		g.Tdx = &epb.VMTdx{Svn: 2, Measurements: []*epb.VMTdx_Measurement{{RamGib: 16, Mrtd: rp.Meas("t16")}, {RamGib: 0, EarlyAccept: true, Mrtd: rp.Meas("t0")}}}
+		for k := 2; k < 18; k++ {
+			g.Tdx.Measurements = append(g.Tdx.Measurements, &epb.VMTdx_Measurement{RamGib: uint32(100 + k), Mrtd: rp.Meas(fmt.Sprintf("t-%d", k))})
+		}
 	}
 	return g
 }
@@ -255,6 +283,9 @@ func pathSteps(p protopath.Path) []step {
 func normSteps(ss []step) []step {
 	var r []step
 	for _, s := range ss {
+		if s.K == "map" {
+			s.V = concStr(s.V)
+		}
 		if s.K != "field" {
 			if v, err := strconv.ParseInt(s.V, 0, 64); err == nil {
 				s.V = strconv.FormatInt(v, 10)
@@ -376,6 +407,15 @@ func RunC19(run *vk.Run) {
 					continue
 				}
 				want, present := walk(msg, got)
+				// the same text read by the specification's literal rules (Go syntax: 017 is 15, 0x10 is 16):
+				// when the parser read a literal otherwise, the text addresses another element
+				if wantOK && fmt.Sprint(got) != fmt.Sprint(normSteps(c.Path)) {
+					refVal, refPresent := walk(msg, normSteps(c.Path))
+					if refPresent != (verr == nil) || (refPresent && !sameValue(vals.Index(-1).Value, refVal)) {
+						run.Violation("literal-misread", fmt.Sprintf("path %q parses to %v, but its literals denote %v: on message #%d it evaluates to another element than the one the text addresses", text, got, normSteps(c.Path), mi), rep)
+						continue
+					}
+				}
 				switch {
 				case present && verr != nil:
 					run.Violation("eval-misses-value", fmt.Sprintf("path %q addresses an existing value of message #%d but evaluation fails: %v", text, mi, verr), rep)
